@@ -3,6 +3,7 @@
    decidable equality of outcomes, per-run check. *)
 From Coq Require Import List String Ascii ZArith NArith Bool Arith.
 From Verif Require Import Bind PyK PyK_alias.
+From Verif Require OptProj BindK17.
 From VerifGen Require K4.
 Import ListNotations.
 Open Scope string_scope.
@@ -198,29 +199,37 @@ Record lay := {
   ly_L : layout;                 (* m_alias and m_anc of the members are filled in by [resolved] *)
   ly_asrc : list (string * asrc);
   ly_anc : list (list (string * bfield));   (* __dataclass_fields__ of the dataclass ancestors, in cls.__mro__[-1:0:-1] order *)
+  ly_ty : list (string * OptProj.fty);      (* shape of the type hint of every normal member, as is_field_nullable looks at it *)
   ly_kinds : list (string * ckind);
   ly_nba : bool;                (* Config.allow_deserialization_not_by_alias *)
   ly_sigpos : list string;      (* inspect.signature(cls.__init__): positional-or-keyword names *)
   ly_sigkw : list string        (* keyword-only names *)
 }.
 
-Definition set_alias (anc: option bfield) (a: option string) (m: member) : member :=
+(* m_nullty is computed by the translated is_field_nullable (kernel K17) from the type shape; the flag given
+   as m_unull by the harness says that the type admits None at all: it is hidden behind a wrapper exactly
+   when the field block does not see it *)
+Definition set_alias (anc: option bfield) (a: option string) (t: OptProj.fty) (m: member) : member :=
+  let nul := BindK17.nullty_code t in
   Build_member (m_name m) (m_kind m) (m_field m) (m_param m) (m_kw m) (m_def m) anc (m_own m)
-               (m_ns m) (m_df m) (m_nullty m) (m_ident m) a (m_unull m).
+               (m_ns m) (m_df m) nul (m_ident m) a (m_unull m && negb nul).
 
 (* the layout with every alias computed by K4; None when the kernel fails *)
-Fixpoint resolved_list (srcs: list (string * asrc)) (tables: list (list (string * bfield))) (L: layout) : option layout :=
+Fixpoint resolved_list (srcs: list (string * asrc)) (tables: list (list (string * bfield)))
+         (tys: list (string * OptProj.fty)) (L: layout) : option layout :=
   match L with
   | [] => Some []
   | m :: r =>
     let a := match lookup (m_name m) srcs with Some a => a | None => no_alias end in
     match (if match m_kind m with KNormal => true | _ => false end
-           then resolve_alias (m_name m) a else Some None), resolved_list srcs tables r with
-    | Some al, Some r' => Some (set_alias (anc_of tables (m_name m)) al m :: r')
+           then resolve_alias (m_name m) a else Some None), resolved_list srcs tables tys r with
+    | Some al, Some r' =>
+        Some (set_alias (anc_of tables (m_name m)) al
+                        (match lookup (m_name m) tys with Some t => t | None => OptProj.TyPlain end) m :: r')
     | _, _ => None
     end
   end.
-Definition resolved (y: lay) : option layout := resolved_list (ly_asrc y) (ly_anc y) (ly_L y).
+Definition resolved (y: lay) : option layout := resolved_list (ly_asrc y) (ly_anc y) (ly_ty y) (ly_L y).
 
 (* the model's signature of __init__ equals the real one, and the layout is in the domain *)
 Definition lay_ok (y: lay) : bool :=
@@ -253,7 +262,7 @@ Definition run_ok (y: lay) (d: inp) (r: rout) : bool :=
   end.
 
 Definition dummy_lay : lay :=
-  {| ly_L := []; ly_asrc := []; ly_anc := []; ly_kinds := []; ly_nba := false; ly_sigpos := []; ly_sigkw := [] |}.
+  {| ly_L := []; ly_asrc := []; ly_anc := []; ly_ty := []; ly_kinds := []; ly_nba := false; ly_sigpos := []; ly_sigkw := [] |}.
 
 Definition case_ok (lays: list lay) (c: nat * inp * rout) : bool :=
   match c with (i, d, r) =>
@@ -278,7 +287,7 @@ Definition ref_agrees (lays: list lay) (c: nat * inp * rout) : bool :=
     end
   end.
 
-Definition mkm n k fld par kw df own ns dff nul idt unl : member :=
-  Build_member n k fld par kw df None own ns dff nul idt None unl.
+Definition mkm n k fld par kw df own ns dff idt sem : member :=
+  Build_member n k fld par kw df None own ns dff false idt None sem.
 Definition bf d i k : bfield := Build_bfield d i k.
 Definition asr m an ia c : asrc := Build_asrc m an ia c.
